@@ -32,6 +32,12 @@ CHECKS = {
  "C18": dict(engine="E2-storemodel + E1-world", category="exploration", technique="property-based testing: ordering/pagination laws on both backends plus a stateful invariant (last-message pointer) over generated histories",
    text="(a) message sets with colliding timestamps on both backends: documented total order, repeatable listings, pages of size 1..3 partition the listing, out-of-range limits refused, last_message = head, agreement with the model for all (limit, offset, sort) incl. 0, MAX, MAX+1, usize::MAX; (b) message-rich generated histories with the group's cached last-message pointer compared, after every API call, to the head of the default order among non-invalidated messages. Search, not proof.",
    note="processed_at is wall-clock with one-second granularity, so ties on it dominate; (b) judges Active groups only.", ref="DESIGN.md §4 C18"),
+ "C04": dict(engine="E1-world + rogue toolkit", category="exploration", technique="stateful property-based testing with adversarial generators (forged rumor fields, colliding ids, replayed ciphertexts) and a per-delivery store invariant",
+   text="Message-rich generated histories in which members also send rumors with a chosen pubkey and a chosen pre-set id (incl. the id of another member's stored message) and re-wrap captured MLS ciphertexts in fresh wrappers. After every delivery at every receiver: attribution = the client that really produced the content canary, id = NIP-01 hash of the stored fields, other authors' stored messages bit-for-bit unchanged, no canary stored twice. Search, not proof.",
+   note="What a forging client keeps in its own store about its own forgeries is not judged; a second group on the same client (cross-group h tag) is exercised in C06.", ref="DESIGN.md §4 C04"),
+ "C05": dict(engine="E1-world + rogue toolkit", category="exploration", technique="stateful property-based testing with adversarial commit/proposal generators built directly on OpenMLS, judged by before/after fingerprints against what each event names",
+   text="Generated histories mix honest operations with commits and proposals built directly with OpenMLS by admins, non-admins and members that have not yet seen their own removal (add, remove, extension rename, self-promotion, path update, path update with a foreign identity, remove+update, by-reference commit, empty commit; remove/add/extension/update proposals). Every delivery is judged at the receiver: a refused event changes nothing, a proposal changes only the queue, only a self-leave may be auto-committed, a non-admin's accepted commit changes neither roster nor data, an admin's commit changes exactly what the call named, no identity moves at a surviving leaf. Search, not proof.",
+   note="Outsiders without any group state cannot build MLS messages (their junk is C06's subject); PSK proposals are not constructible in this setup.", ref="DESIGN.md §4 C05"),
 }
 
 checks = []
@@ -63,7 +69,7 @@ manifest = {
     },
     "engines": [
         {"name": "E2-storemodel", "path": "/verif/harness/src/storemodel.rs", "serves_properties": ["C09", "C10", "C18"], "kind_free_text": "reference model of the storage contract + three-way differential over generated call sequences"},
-        {"name": "E1-world", "path": "/verif/harness/src/world.rs", "serves_properties": ["C01", "C02", "C07", "C08", "C18"], "kind_free_text": "simulated clients + relay + delivery scheduler over the real crates; proptest plans; reference replica"},
+        {"name": "E1-world", "path": "/verif/harness/src/world.rs", "serves_properties": ["C01", "C02", "C04", "C05", "C07", "C08", "C18"], "kind_free_text": "simulated clients + relay + delivery scheduler over the real crates; proptest plans; reference replica"},
     ],
     "checks": checks,
     "notes": "exit 0 held / 1 violation (VIOLATION line) / 2 inconclusive or infrastructure. Known findings: /verif/known_findings.json (witness plans are re-run on every check and printed as KNOWN-FINDING lines).",
